@@ -328,12 +328,21 @@ func runStall(cs *Case) (*Obs, []evRec) {
 			obs.Bad = "senders did not settle after a release"
 		}
 	}
-	// a Send blocked for ever ends its subscription with an error once the timer fires
-	for i := range cs.Subs {
-		bmu.Lock()
-		b := stalls[i].blocked && stalls[i].forever
-		bmu.Unlock()
-		if b {
+	// the end: a Send blocked for ever ends its subscription with an error once the timer
+	// fires; the other blocked Sends are released (a released sender may run into its next
+	// planned block, transient or for ever), until nothing moves any more
+	timedOut := make([]bool, n)
+	for k := 0; k < 50 && obs.Bad == ""; k++ {
+		progressed := false
+		for i := range cs.Subs {
+			bmu.Lock()
+			b := stalls[i].blocked && stalls[i].forever && !timedOut[i]
+			bmu.Unlock()
+			if !b {
+				continue
+			}
+			timedOut[i] = true
+			progressed = true
 			select {
 			case <-done[i]:
 				add(evRec{kind: "timeout", i: i})
@@ -343,10 +352,14 @@ func runStall(cs *Case) (*Obs, []evRec) {
 				}
 			}
 		}
-	}
-	for k := 0; k < 50 && obs.Bad == "" && releaseDue(true); k++ {
-		if !waitParked(e, live, false) {
-			obs.Bad = "senders did not settle after the stalls were released"
+		if obs.Bad == "" && releaseDue(true) {
+			progressed = true
+			if !waitParked(e, live, false) {
+				obs.Bad = "senders did not settle after the stalls were released"
+			}
+		}
+		if !progressed {
+			break
 		}
 	}
 	// a subscriber that starts now gets its snapshot straight from the cache
@@ -713,12 +726,9 @@ func genCase(r *vh.Rand, dead bool) *Case {
 				at += 1 + r.Intn(2)
 			}
 		case 2:
-			at := 1 + r.Intn(2)
-			if r.Chance(1, 2) {
-				plan = append(plan, Block{At: at, Hold: 1 + r.Intn(3)})
-				at += 1 + r.Intn(2)
-			}
-			plan = append(plan, Block{At: at, Hold: 0})
+			// no transient block beside it: with the 100 ms timer of this family a Send held
+			// for a few writes could time out on a loaded machine
+			plan = append(plan, Block{At: 1 + r.Intn(3), Hold: 0})
 		}
 		cs.Plan = append(cs.Plan, plan)
 	}
